@@ -188,7 +188,13 @@ func (ex *Explorer) merge(p *Path, status, msg string) {
 		r.Aborted["infeasible"]++
 	default:
 		r.Aborted[status]++
-		if len(r.AbortSamples[status]) < 5 {
+		dup := false
+		for _, m := range r.AbortSamples[status] {
+			if firstLine(m) == firstLine(msg) {
+				dup = true
+			}
+		}
+		if !dup && len(r.AbortSamples[status]) < 5 {
 			r.AbortSamples[status] = append(r.AbortSamples[status], msg)
 		}
 	}
